@@ -1106,6 +1106,37 @@ impl OrdWorld {
         match pat {
             0 => (0..n).map(|i| lo + i).collect(),
             1 => (0..n).rev().map(|i| lo + i).collect(),
+            // outward from the middle: alternately a new maximum and a new minimum
+            3 => {
+                let m = n / 2;
+                let mut v = Vec::with_capacity(n as usize);
+                let (mut a, mut b) = (m - 1, m);
+                while a >= 0 || b < n {
+                    if b < n {
+                        v.push(lo + b);
+                        b += 1;
+                    }
+                    if a >= 0 {
+                        v.push(lo + a);
+                        a -= 1;
+                    }
+                }
+                v
+            }
+            // inward from both ends
+            4 => {
+                let mut v = Vec::with_capacity(n as usize);
+                let (mut a, mut b) = (0, n);
+                while a < b {
+                    v.push(lo + a);
+                    a += 1;
+                    if a < b {
+                        b -= 1;
+                        v.push(lo + b);
+                    }
+                }
+                v
+            }
             _ => {
                 let h = n / 2;
                 (0..h).map(|i| lo + i).chain((h..n).rev().map(|i| lo + i)).collect()
@@ -1367,6 +1398,61 @@ impl World for OrdWorld {
             // right after a bulk build: neighbour steps at the places where the deepest climbs
             // and descents are (the ends, and the seam of the two-sided pattern)
             self.gen.bulk_followup_done = true;
+            // greybox steering for every ordered world: lookups, predecessor handles and held
+            // handles at the end of the longest root-to-leaf path, at both extremes and just
+            // outside them (only operation kinds that are part of this run's alphabet)
+            if let Some(s) = self.colls[0].snapshot() {
+                let mut deepest = (0usize, None::<i32>);
+                let mut stack: Vec<(u32, usize)> = Vec::new();
+                if (s.root as usize) < s.slots.len() {
+                    stack.push((s.root, 1));
+                }
+                let mut visited = 0usize;
+                while let Some((ix, d)) = stack.pop() {
+                    visited += 1;
+                    if visited > s.slots.len() + 1 {
+                        break;
+                    }
+                    let nd = &s.slots[ix as usize];
+                    if d > deepest.0 {
+                        deepest = (d, Some(nd.key));
+                    }
+                    for c in [nd.left, nd.right] {
+                        if (c as usize) < s.slots.len() && c != 0 {
+                            stack.push((c, d + 1));
+                        }
+                    }
+                }
+                if deepest.0 >= 34 {
+                    _ctx.stats.bump("bulk.path_of_34_or_more_entries");
+                }
+                let lo = *self.model.keys().next().unwrap();
+                let hi = *self.model.keys().next_back().unwrap();
+                let mut probes: Vec<i32> = Vec::new();
+                if let Some(k) = deepest.1 {
+                    probes.push(k);
+                }
+                probes.extend([hi, hi.saturating_add(1), lo, lo.saturating_sub(1)]);
+                let w = self.gen.w;
+                for &p in &probes {
+                    if w[W_GET] > 0 {
+                        self.gen.pending.push_back(Op::OGet { k: p });
+                    }
+                    if w[W_FIRST] > 0 {
+                        self.gen.pending.push_back(Op::OFirst { p });
+                    }
+                }
+                if let Some(k) = deepest.1 {
+                    if w[W_HREAD] > 0 {
+                        self.gen.pending.push_back(Op::OHRead { p: k });
+                        self.gen.pending.push_back(Op::OHRead { p: hi.saturating_add(1) });
+                    }
+                    if w[W_HOLD] > 0 && self.model.contains_key(&k) {
+                        self.gen.pending.push_back(Op::OHold { k });
+                        self.gen.pending.push_back(Op::OHold { k: hi });
+                    }
+                }
+            }
             if self.is_set {
                 let lo = *self.model.keys().next().unwrap();
                 let hi = *self.model.keys().next_back().unwrap();
